@@ -130,6 +130,14 @@ func (x *Tx) Delete(o uint32) bool {
 	return ok
 }
 
+// DeleteAll deletes every row of the transaction's selection (txn.DeleteAll). The caller narrows the selection
+// to tracked rows first (a filter on a value column or an index: filler rows hold no values).
+func (x *Tx) DeleteAll() {
+	x.Sel()
+	x.Txn.DeleteAll()
+	x.C.W.T.Log(Ev{"e": "delall", "t": x.T})
+}
+
 // ---- projection ------------------------------------------------------------------------------
 
 // Dump logs the projection of the collection as seen through the public API.
